@@ -293,8 +293,12 @@ class ParseContext(ParserEngine):
             return cstfinal(self.cst)
         finally:
             ast = self.ast
+            cutseen = self.state.cutseen
             self.states.pop()
             self.ast = ast
+            if cutseen:
+                # NOTE: a cut in a repetition element commits the iteration it belongs to
+                self.state.cutseen = True
 
     _isolate = isolate
 
